@@ -288,26 +288,56 @@ SKIPPING = {'filter_map', 'flat_map', 'flatten', 'filter'}
 STOPPING = {'map_while', 'take_while', 'scan', 'try_fold', 'try_for_each', 'skip_while', 'take', 'skip', 'step_by'}
 
 
-def _bookmarks_skip_invalid(ctx, hfn):
-    """bookmark entries that do not parse are skipped and the remaining ones kept: the list is built
-    with a skipping adapter and without one that ends (or offsets) the iteration"""
-    rhs = assignments(hfn, 'state', ['bookmarks']) or _assignments_any_base(hfn, ['bookmarks'])
-    if not rhs:
-        return False, 'no assignment to `state.bookmarks` found', None
-    for r, ln, anc in rhs:
-        names = set()
+def _desugared_loop_exit(n, anc):
+    """the `break` the compiler generates for the end of a `for` / `while` loop"""
+    if n.get('k') != 'break':
+        return False
+    for i in range(len(anc) - 1, -1, -1):
+        a = anc[i]
+        if a.get('k') == 'match':
+            return a.get('src', '').startswith('ForLoop')
+        if a.get('k') == 'if':
+            # `while c { .. }` is `loop { if c { .. } else { break } }`
+            par = [x for x in anc[:i] if x.get('k') == 'loop']
+            nxt = anc[i + 1] if i + 1 < len(anc) else n
+            return bool(par) and par[-1].get('src', '').startswith('While') and a.get('e') is nxt
+        if a.get('k') in ('loop', 'closure'):
+            return False
+    return False
 
-        def visit(n, anc2):
-            if n.get('k') == 'mcall':
-                names.add(n.get('name'))
-        H.walk(r, visit)
-        tys = repr(r)
-        if names & STOPPING or 'collect::<std::result::Result' in tys or 'collect::<std::option::Option' in tys:
-            return False, ('the bookmark list is cut at the first invalid entry (`%s`): later valid bookmarks are lost'
-                           % ', '.join(sorted(names & STOPPING) or ['collect into Result/Option'])), ln
-        if not names & SKIPPING:
-            return False, 'the bookmark list is not built with an adapter that skips invalid entries', ln
-    return True, '', rhs[0][1]
+
+def _bookmarks_skip_invalid(ctx, hfn):
+    """bookmark entries that do not parse are skipped and the remaining ones kept: nothing in the
+    Bookmarks arm ends the list early (an adapter that stops or offsets the iteration, a `break`,
+    `return` or `?`, collecting into a `Result`/`Option`)"""
+    arms = []
+
+    def visit(n, anc):
+        if n.get('k') == 'match' and not n.get('src', '').startswith('TryDesugar'):
+            for a in n['arms']:
+                if 'EditorKey::Bookmarks' in repr(a['pat']):
+                    arms.append(a['body'])
+    H.walk(hfn['body'], visit)
+    if len(arms) != 1:
+        return False, 'expected one `EditorKey::Bookmarks` arm, found %d' % len(arms), None
+    names, stops = set(), []
+
+    def v2(n, anc2):
+        if n.get('k') == 'mcall':
+            names.add(n.get('name'))
+            if n.get('name') == 'collect' and ('Result<' in n.get('ty', '') or 'Option<' in n.get('ty', '')):
+                stops.append(('collect into Result/Option', n.get('ln')))
+        if n.get('k') in ('break', 'ret') and not _desugared_loop_exit(n, anc2):
+            stops.append((n['k'], n.get('ln')))
+        if H.is_try(n):
+            stops.append(('?', n.get('ln')))
+    H.walk(arms[0], v2)
+    for nm in sorted(names & STOPPING):
+        stops.append(('`%s`' % nm, None))
+    if stops:
+        return False, ('the bookmark list is cut at the first invalid entry (%s): later valid bookmarks are lost'
+                       % ', '.join(sorted({x[0] for x in stops}))), stops[0][1]
+    return True, '', arms[0].get('ln')
 
 
 _bookmarks_skip_invalid.positive = True
@@ -444,7 +474,7 @@ row('C05', 'decode::parse_first_section', 'failed-version-line-may-open-a-sectio
 
 
 def _version_table(ctx, hfn):
-    """(arm patterns from the outermost match inwards) -> (version, use-current-line flag)"""
+    """what parse_version yields per outcome of try_version_from_line: (version, use-current-line)"""
     got = {}
 
     def sig(p):
@@ -461,25 +491,37 @@ def _version_table(ctx, hfn):
             return '()'
         return k or '?'
 
+    def flag_of(e):
+        v = ctx.const_value(e)
+        if isinstance(v, bool):
+            return v
+        e2 = strip(e)
+        if isinstance(e2, dict) and e2.get('k') == 'call' and len(e2['args']) == 1:
+            v = ctx.const_value(e2['args'][0])
+            if isinstance(v, bool):
+                return v
+        return None
+
     def visit(n, anc):
         if n.get('k') != 'tup' or len(n['es']) != 2:
             return
-        flag = ctx.const_value(n['es'][1])
-        if not isinstance(flag, bool):
+        flag = flag_of(n['es'][1])
+        if flag is None:
             return
         ver = strip(n['es'][0])
         vk = 'None' if ver.get('k') == 'path' and ver.get('name') == 'None' else (
             'Some' if ver.get('k') == 'call' and ver['f'].get('name') == 'Some' else '?')
-        path = []
+        outcome = 'end-of-input'
         for i, a in enumerate(anc):
             if a.get('k') == 'match' and not a.get('src', '').startswith('TryDesugar'):
                 for arm in a['arms']:
                     inside = any(x is arm['body'] for x in anc[i + 1:]) or arm['body'] is n
-                    if inside:
-                        path.append(sig(arm['pat']))
-        got['/'.join(path)] = (vk, flag)
+                    sg = sig(arm['pat'])
+                    if inside and sg.startswith('Break('):
+                        outcome = sg
+        got.setdefault(outcome, set()).add((vk, flag))
     H.walk(hfn['body'], visit)
-    exp = {'Ok(Some(_))/Break(Ok(_))': ('Some', False), 'Ok(Some(_))/Break(Err(_))': ('None', True), 'Ok(None)': ('None', False)}
+    exp = {'Break(Ok(_))': {('Some', False)}, 'Break(Err(_))': {('None', True)}, 'end-of-input': {('None', False)}}
     ok = got == exp
     return ok, '' if ok else ('version outcomes are %s; expected: parsed version -> (Some, continue with the next line), '
                               'failed version line -> (None, re-examine this line), end of input -> (None, -)' % got), None
@@ -956,9 +998,13 @@ def run_nf(facts, out):
     b = facts.body(TIMING)
     if b is not None:
         hfn = facts.hir.get(TIMING)
-        ctx = Ctx(facts, H.binding_inits(hfn))
-        lo = find(ctx, hfn['body'], IF(BIN('Lt', L('beat_len'), C('from', UN('Neg', K(2147483647)))), ANY()))
-        hi = find(ctx, hfn['body'], BIN('Gt', L('beat_len'), C('from', K(2147483647))))
-        ok = bool(lo) and bool(hi)
+        ok = False
+        # in the parser itself or in a private helper it calls (the local may be named differently there)
+        for h2 in [hfn] + local_callees(facts, hfn, depth=1):
+            ctx = Ctx(facts, H.binding_inits(h2), h2)
+            lo = find(ctx, h2['body'], IF(BIN('Lt', L('beat_len'), C('from', UN('Neg', K(2147483647)))), ANY()))
+            hi = find(ctx, h2['body'], BIN('Gt', L('beat_len'), C('from', K(2147483647))))
+            if lo and hi:
+                ok = True
         out.add('NF', TIMING, 'beat_len-range', '%s:%d' % (b.file, b.line), ok,
                 '' if ok else 'the manually parsed beat length is not range-checked against +-MAX_PARSE_VALUE', ordinal=False)
